@@ -150,10 +150,24 @@ def ctr_lines(rnd, n, big):
         calls = [str(p) for p in parts]
         if rnd.random() < 0.2:
             calls.insert(rnd.randrange(len(calls) + 1), "R%d" % rnd.getrandbits(64))
+        if rnd.random() < 0.25 and len(calls) > 1:
+            # the key replaced by another one (either length) living at the same address, the stream object kept
+            calls.insert(rnd.randrange(1, len(calls)), "K%s:%d" % (hx(rbytes(rnd, rnd.choice([16, 32]))), rnd.getrandbits(64)))
         if rnd.random() < 0.15:
             # re-initialised and then released unused (or after an empty call): the object still has to be wiped
             calls += ["R%d" % rnd.getrandbits(64)] + (["0"] if rnd.random() < 0.5 else [])
         L.append("ctr %s %d %s %d %s" % (hx(rbytes(rnd, kl)), nonce, ",".join(calls), rnd.randint(0, 1), hx(rbytes(rnd, ln))))
+    # one stream object over a succession of keys of alternating lengths, each expanded where the previous one was released;
+    # whole-block and sub-block calls under each key
+    for first in (16, 32):
+        for ln in (200, 560):
+            kls = [first, 48 - first, first, first, 48 - first]
+            calls, left = [], ln
+            for j, kl in enumerate(kls[1:]):
+                take = rnd.choice([5, 16, 33, 64])
+                calls += [str(take), str(rnd.choice([3, 16, 17])), "K%s:%d" % (hx(rbytes(rnd, kl)), rnd.getrandbits(64))]
+            calls.append(str(ln))
+            L.append("ctr %s %d %s %d %s" % (hx(rbytes(rnd, first)), rnd.getrandbits(64), ",".join(calls), rnd.randint(0, 1), hx(rbytes(rnd, ln))))
     # caller buffers at every offset from a 16-byte boundary: a short call (partial block), then a long one whose output pointer is
     # aligned / misaligned (vector loads and stores, non-temporal stores)
     for hdr in (1, 5, 8, 15, 16, 0):
